@@ -7,12 +7,14 @@ package c16
 import (
 	"context"
 	"errors"
+	"fmt"
 	"sync"
 	"time"
 
 	"github.com/go-logr/logr"
 	corev1 "k8s.io/api/core/v1"
 	apierrors "k8s.io/apimachinery/pkg/api/errors"
+	"k8s.io/apimachinery/pkg/api/meta"
 	metav1 "k8s.io/apimachinery/pkg/apis/meta/v1"
 	"k8s.io/apimachinery/pkg/runtime"
 	"k8s.io/apimachinery/pkg/runtime/schema"
@@ -26,6 +28,7 @@ import (
 
 	_ "sigs.k8s.io/karpenter/pkg/apis"
 	v1 "sigs.k8s.io/karpenter/pkg/apis/v1"
+	"sigs.k8s.io/karpenter/pkg/cloudprovider"
 	fakecp "sigs.k8s.io/karpenter/pkg/cloudprovider/fake"
 	"sigs.k8s.io/karpenter/pkg/operator/options"
 	"sigs.k8s.io/karpenter/pkg/test"
@@ -167,19 +170,100 @@ func labelSelectorValue(opts []client.ListOption, key string) (string, bool) {
 // provider wraps the repository's fake cloud provider; List is scripted (instances + failure).
 type provider struct {
 	*fakecp.CloudProvider
-	listErr   bool
-	instances []*v1.NodeClaim
+	listErr bool
+	// class of the error a failing List returns (providerErrClasses; "" = "err")
+	listErrClass string
+	// a failing List also returns the instances it had already collected (Go APIs may return both)
+	listPartial bool
+	instances   []*v1.NodeClaim
 }
 
 func (p *provider) List(_ context.Context) ([]*v1.NodeClaim, error) {
-	if p.listErr {
-		return nil, errors.New("injected provider list failure")
-	}
 	out := make([]*v1.NodeClaim, 0, len(p.instances))
 	for _, i := range p.instances {
 		out = append(out, i.DeepCopy())
 	}
+	if p.listErr {
+		if p.listPartial {
+			return out[:len(out)/2], providerErr(p.listErrClass)
+		}
+		return nil, providerErr(p.listErrClass)
+	}
 	return out, nil
+}
+
+// Error classes of a failing kube API call (what a real client can return from List / Delete): the typed API
+// status errors controllers commonly filter with client.IgnoreNotFound / IsConflict / ..., transport-level
+// failures, and the same wrapped once (errors.As / errors.Is see through the wrapping).
+var apiErrClasses = []string{"err", "notfound", "notfound-wrapped", "conflict", "timeout", "throttled", "forbidden", "unavailable", "gone", "nomatch", "canceled", "deadline"}
+
+func apiErr(class, name string) error {
+	gr := schema.GroupResource{Group: "karpenter.sh", Resource: "injected"}
+	switch class {
+	case "", "err", "notfound", "conflict": // "" = the call succeeds
+		return faultErr(class, name)
+	case "notfound-wrapped":
+		return fmt.Errorf("injected, %w", apierrors.NewNotFound(gr, name))
+	case "timeout":
+		return apierrors.NewTimeoutError("injected timeout", 1)
+	case "throttled":
+		return apierrors.NewTooManyRequests("injected throttling", 1)
+	case "forbidden":
+		return apierrors.NewForbidden(gr, name, errors.New("injected"))
+	case "unavailable":
+		return apierrors.NewServiceUnavailable("injected")
+	case "gone":
+		return apierrors.NewResourceExpired("injected")
+	case "nomatch":
+		return &meta.NoKindMatchError{GroupKind: schema.GroupKind{Group: "karpenter.sh", Kind: "Injected"}, SearchedVersions: []string{"v1"}}
+	case "canceled":
+		return context.Canceled
+	case "deadline":
+		return fmt.Errorf("injected, %w", context.DeadlineExceeded)
+	}
+	panic("unknown api error class " + class)
+}
+
+func orErr(class string) string {
+	if class == "" {
+		return "err"
+	}
+	return class
+}
+
+// Error classes of a failing cloudProvider call: karpenter's own typed provider errors (each has an
+// Is.../Ignore... helper that call sites of Get / Delete / Create use), bare / wrapped / joined, a kube API
+// NotFound (providers backed by API objects, e.g. kwok), transport-level failures and an untyped error.
+var providerErrClasses = []string{"err", "nodeclaim-notfound", "nodeclaim-notfound-wrapped", "nodeclaim-notfound-joined",
+	"insufficient-capacity", "nodeclass-not-ready", "create-error", "api-notfound", "api-notfound-wrapped", "canceled", "deadline"}
+
+func providerErr(class string) error {
+	base := errors.New("injected provider failure")
+	switch class {
+	case "", "err":
+		return base
+	case "nodeclaim-notfound":
+		return cloudprovider.NewNodeClaimNotFoundError(base)
+	case "nodeclaim-notfound-wrapped":
+		return fmt.Errorf("listing instances, %w", cloudprovider.NewNodeClaimNotFoundError(base))
+	case "nodeclaim-notfound-joined":
+		return errors.Join(cloudprovider.NewNodeClaimNotFoundError(base), errors.New("second injected provider failure"))
+	case "insufficient-capacity":
+		return cloudprovider.NewInsufficientCapacityError(base)
+	case "nodeclass-not-ready":
+		return cloudprovider.NewNodeClassNotReadyError(base)
+	case "create-error":
+		return cloudprovider.NewCreateError(base, "Injected", "injected")
+	case "api-notfound":
+		return apierrors.NewNotFound(schema.GroupResource{Group: "karpenter.test.sh", Resource: "instances"}, "injected")
+	case "api-notfound-wrapped":
+		return fmt.Errorf("listing instances, %w", apierrors.NewNotFound(schema.GroupResource{Group: "karpenter.test.sh", Resource: "instances"}, "injected"))
+	case "canceled":
+		return context.Canceled
+	case "deadline":
+		return fmt.Errorf("listing instances, %w", context.DeadlineExceeded)
+	}
+	panic("unknown provider error class " + class)
 }
 
 func newProvider() *provider {
